@@ -12,14 +12,14 @@ import models as M
 from sym import some, NONE, lit_int, mk_field, mk_payload
 
 LEVEL = "other"
-TECHNIQUE = R1.TECHNIQUE + "; literal table agreement; twin comparison; slicing census"
+TECHNIQUE = R1.TECHNIQUE + "; literal table agreement; per-implementation references (twin comparison as cross-reference); slicing census"
 EXPLANATION = ("Decided clauses: the JVM primitive table (Z,B,C,S,I,J,F,D,V -> keywords, anything else none); the per-character state machine "
                "of byte_code_type_to_java_type(_cache) ('[' appends \"[]\" to the suffix, 'L' requires a trailing ';' else none, body has '/' "
                "replaced by '.', result is remap_class(name) else name followed by the suffix, primitive -> keyword + suffix, exhausted -> "
                "none); the guards of the signature splitter (leading '(', last ')', non-empty return type, ';'-terminated object types, all "
                "slicing through get()); assembly (parameters = non-empty tokens converted in order, dropped if unconvertible; return type "
                "mandatory) and format_signature ('(' + join(\", \") + ')' and ': ' + ret unless empty or void); mapper and cache copies "
-               "are alpha-equivalent modulo receiver. slice bounds are byte offsets only (no item counts). the tokenizer's per-iteration bookkeeping (token = slice from the token start to the "
+               "each equal the same reference (class registration in both builders, class lookup and the public entry points included). slice bounds are byte offsets only (no item counts). the tokenizer's per-iteration bookkeeping (token = slice from the token start to the "
                "terminator inclusive, start := terminator + 1, '[' keeps the start, object scan stops at the first ';') equals the reference. "
                "NOT decided: the inductive argument that this bookkeeping cuts every valid descriptor at type boundaries (paper argument over the per-iteration clauses).")
 RULE_TEXT = R1.RULE_TEXT
